@@ -1,4 +1,4 @@
-import Spec.Judge
+import Spec.Dispatch
 
 partial def loop (h : IO.FS.Stream) (out : IO.FS.Stream) : IO Unit := do
   let line ← h.getLine
